@@ -208,37 +208,43 @@ func runC18(c *eng.Ctx) {
 				k, isK := eng.ConstInt(info, e)
 				return isK && k == 1
 			}
-			isEvery := func(e ast.Expr) bool {
+			// the wanted values are judged on the expression that produced the argument on the paths of the scenario
+			// (copies of locals followed backwards), evaluated where it was produced
+			type judge func(e ast.Expr, at *eng.GNode, assumed func(eng.Fact) bool) bool
+			constJ := func(f func(ast.Expr) bool) judge {
+				return func(e ast.Expr, _ *eng.GNode, _ func(eng.Fact) bool) bool { return f(e) }
+			}
+			fieldAt := func(e ast.Expr, at *eng.GNode, assumed func(eng.Fact) bool, fld *types.Var) bool {
+				src, _, tup, uniq := valueAt(g, info, f.Decl.Body, at, e, assumed)
+				return uniq && tup < 0 && src != nil && eng.IsField(info, src, fld)
+			}
+			isEvery := func(e ast.Expr, at *eng.GNode, assumed func(eng.Fact) bool) bool {
 				if e == nil {
 					return false
 				}
 				cl, isC := ast.Unparen(e).(*ast.CallExpr)
-				return isC && len(cl.Args) == 1 && eng.IsPkgFunc(eng.CalleeOf(info, cl), "golang.org/x/time/rate", "Every") && eng.IsField(info, resolveLocal(info, f.Decl.Body, cl.Args[0]), minInt)
+				return isC && len(cl.Args) == 1 && eng.IsPkgFunc(eng.CalleeOf(info, cl), "golang.org/x/time/rate", "Every") && fieldAt(cl.Args[0], at, assumed, minInt)
 			}
-			isBurstField := func(e ast.Expr) bool {
-				return e != nil && eng.IsField(info, resolveLocal(info, f.Decl.Body, e), burstF)
+			isBurstField := func(e ast.Expr, at *eng.GNode, assumed func(eng.Fact) bool) bool {
+				return e != nil && fieldAt(e, at, assumed, burstF)
 			}
-			decide := func(arg int, fld *types.Var, dflt, configured func(ast.Expr) bool) bool {
+			decide := func(arg int, fld *types.Var, dflt, configured judge) bool {
 				okAll := true
 				for _, sc := range []struct {
 					hasSettings, nonZero bool
-					want                 func(ast.Expr) bool
+					want                 judge
 				}{{false, false, dflt}, {true, false, dflt}, {true, true, configured}} {
-					assumed := scenario(sc.hasSettings, fld, sc.nonZero)
+					assumed := liftLocals(g, info, f.Decl.Body, scenario(sc.hasSettings, fld, sc.nonZero))
+					feasible := g.Reach(eng.Query{FromEntry: true, Assume: assumed, AvoidEdge: g.Infeasible(assumed)})
 					created := false
 					for _, st := range sites {
-						vals, reachable, ok := reachingValues(g, info, f.Decl.Body, st.n, st.call.Args[arg], assumed)
-						if !reachable {
+						if !feasible[st.n] {
 							continue
 						}
 						created = true
-						if !ok || len(vals) == 0 {
+						src, at, tup, uniq := valueAt(g, info, f.Decl.Body, st.n, st.call.Args[arg], assumed)
+						if !uniq || tup >= 0 || !sc.want(src, at, assumed) {
 							okAll = false
-						}
-						for _, v := range vals {
-							if !sc.want(v) {
-								okAll = false
-							}
 						}
 					}
 					if !created {
@@ -247,8 +253,8 @@ func runC18(c *eng.Ctx) {
 				}
 				return okAll
 			}
-			r3.Check(decide(0, minInt, isInf, isEvery), f.Key+" limit", f.Decl.Pos(), "rate.Inf by default, rate.Every(ExecutionMinInterval) when non-zero", "the limit is not `rate.Every(executionMinInterval)` exactly when an interval is configured (and unlimited otherwise)")
-			r3.Check(decide(1, burstF, isOne, isBurstField), f.Key+" burst", f.Decl.Pos(), "1 by default, ExecutionBurst when non-zero", "the burst is not `executionBurst` exactly when configured (and 1 otherwise)")
+			r3.Check(decide(0, minInt, constJ(isInf), isEvery), f.Key+" limit", f.Decl.Pos(), "rate.Inf by default, rate.Every(ExecutionMinInterval) when non-zero", "the limit is not `rate.Every(executionMinInterval)` exactly when an interval is configured (and unlimited otherwise)")
+			r3.Check(decide(1, burstF, constJ(isOne), isBurstField), f.Key+" burst", f.Decl.Pos(), "1 by default, ExecutionBurst when non-zero", "the burst is not `executionBurst` exactly when configured (and 1 otherwise)")
 		}
 		// who stores RateLimiter
 		limiter := p.Field(pkgHook, "Hook", "RateLimiter")
